@@ -783,10 +783,11 @@ def termination(ctx):
                               "a read loop that continues only after reading at least one byte",
                               "the read loop has a way round that did not establish that the read consumed input (n != 0): it can spin at end of input", body.span_of(h))
                     continue
-            if drv is None and cand0 and "array::IntoIter<" in body.blocks[cand0[0]]["term"]["func"]["full"] and not any(p.end[0] == "back" and p.end[1] == h for p in ctx.paths(key)) \
+            if drv is None and cand0 and ("array::IntoIter<" in body.blocks[cand0[0]]["term"]["func"]["full"] or "slice::Iter<" in body.blocks[cand0[0]]["term"]["func"]["full"]) \
+                    and not any(p.end[0] == "back" and p.end[1] == h for p in ctx.paths(key)) \
                     and not any(e.kind == "call" and e.bb == cand0[0] for p in ctx.paths(key) for e in p.events):
-                # `for x in [a, b, c]`: the evaluator walked the body once per element of the array literal (no back edge, no symbolic next()):
-                # the number of iterations is the literal's length
+                # `for x in [a, b, c]` / `for x in &TABLE`: the evaluator walked the body once per element of the array literal or constant table
+                # (no back edge, no symbolic next()): the number of iterations is the table's length
                 ctx.ok("TERM", key, "loop[array-literal]%s" % ("" if list(sorted(body.loops)).index(h) == 0 else "#%d" % (sorted(body.loops).index(h) + 1)),
                        "a loop over an array literal, walked element by element", body.span_of(h))
                 continue
